@@ -343,10 +343,41 @@ func (g *gen) script() {
 					g.do(fmt.Sprintf("top add %d %d %d", p, c, 1+r.Intn(5)))
 				} else if l := g.liveChans(); len(l) > 0 {
 					p := s.chanPri[pick(r, l)]
+					if r.Intn(4) == 0 {
+						// RemoveInput of a priority that is not registered (never added, or
+						// removed before): nothing may change for the registered ones
+						reg := map[uint]bool{}
+						for _, c := range l {
+							reg[s.chanPri[c]] = true
+						}
+						for q := uint(1 + r.Intn(14)); ; q = q%14 + 1 {
+							if !reg[q] {
+								p = q
+								break
+							}
+						}
+					}
 					if s.inflight[p] > 0 {
 						g.readd = append(g.readd, p)
 					}
+					_, _, _, was, _ := s.stp.Snapshot()
 					g.do(fmt.Sprintf("top remove %d", p))
+					// C17: when RemoveInput(p) has taken effect, the priorities served are the
+					// previous ones without p - nothing else disappears, nothing appears
+					_, _, _, now, _ := s.stp.Snapshot()
+					want := map[uint]bool{}
+					for _, q := range was {
+						if q != p {
+							want[q] = true
+						}
+					}
+					same := len(now) == len(want)
+					for _, q := range now {
+						same = same && want[q]
+					}
+					if !same && !s.errSeen {
+						s.fail("C17 after RemoveInput(%d) the priorities served are %v, expected %v without %d", p, now, was, p)
+					}
 				} else {
 					g.do("top none")
 				}
